@@ -298,7 +298,7 @@ def payload_size(ctx, kind="bytes", maxchars=3):
         elif kind == "file":
             raw = text.encode()
             start = ctx.choice("start", len(raw) + 1)
-            tmp = tempfile.NamedTemporaryFile(prefix="c04pl", delete=False)
+            tmp = tempfile.NamedTemporaryFile(prefix="c04pl", delete=False, dir="/var/tmp")
             tmp.write(raw)
             tmp.close()
             fobj = open(tmp.name, "rb")
@@ -309,7 +309,7 @@ def payload_size(ctx, kind="bytes", maxchars=3):
             enc = ctx.pick("encoding", ["utf-8", "latin-1"])
             if enc == "latin-1" and "\u20ac" in text:
                 ctx.assume(False)
-            tmp = tempfile.NamedTemporaryFile(prefix="c04pl", delete=False)
+            tmp = tempfile.NamedTemporaryFile(prefix="c04pl", delete=False, dir="/var/tmp")
             tmp.write(text.encode(enc))
             tmp.close()
             fobj = open(tmp.name, "r", encoding=enc, newline="")
